@@ -240,6 +240,28 @@ func secARAP(r *vlib.Run) {
 			}
 		}
 		c.Count("arap.constraints_checked", int64(len(cons)))
+		// positional constraints are met exactly whatever the iteration budget and the starting
+		// point: no refinement steps at all, started from a caller's guess that does not satisfy
+		// the constraints (the undeformed mesh)
+		if rng.Intn(3) == 0 {
+			oldMax, oldMin := a.MaxIterations(), a.MinIterations()
+			a.SetMaxIterations(rng.Intn(2))
+			a.SetMinIterations(0)
+			guess := map[model3d.Coord3D]model3d.Coord3D{}
+			for _, p := range in.im.pts {
+				guess[p] = p
+			}
+			dm0 := a.DeformMap(cons, guess)
+			c.Count("arap.deform_maps_with_a_guess_and_0_or_1_iterations", 1)
+			for k, v := range cons {
+				if got, ok := dm0[k]; !ok || got != v {
+					c.Violationf("model3d.ARAP.DeformMap/constraints-exact", in.witness(extra), "with MaxIterations=%d and the undeformed mesh as initial guess, constrained vertex %s maps to %s, target was %s", a.MaxIterations(), hex3(k), hex3(got), hex3(v))
+					break
+				}
+			}
+			a.SetMaxIterations(oldMax)
+			a.SetMinIterations(oldMin)
+		}
 		// connectivity under the published map
 		if len(dm) != len(in.im.pts) {
 			c.Violationf("model3d.ARAP.DeformMap/total", in.witness(extra), "map has %d keys, the mesh %d vertices", len(dm), len(in.im.pts))
